@@ -41,7 +41,7 @@ type TaskLane struct {
 
 	// Status
 	blockingTaskCnt *atomic.Uint32
-	lastPanic       any
+	lastPanic       atomic.Pointer[any] // written by workers, read by Status()
 }
 
 func (tl *TaskLane) startQueue(index int) {
@@ -97,7 +97,7 @@ func (tl *TaskLane) startWorker(index int) {
 		func() {
 			defer func() {
 				if err := recover(); err != nil {
-					tl.lastPanic = err
+					tl.lastPanic.Store(&err)
 				}
 			}()
 			task.Start()
@@ -166,11 +166,15 @@ func (tl *TaskLane) Status() *LaneStatus {
 		pending += len(tl.bufferedQueueList[i])
 	}
 	pending += int(tl.blockingTaskCnt.Load())
+	var lastPanic any
+	if p := tl.lastPanic.Load(); p != nil {
+		lastPanic = *p
+	}
 	return &LaneStatus{
 		LaneSize:    tl.laneSize,
 		QueueSize:   tl.queueSize,
 		PendingTask: pending,
-		LastPanic:   tl.lastPanic,
+		LastPanic:   lastPanic,
 	}
 }
 
